@@ -36,7 +36,9 @@ pub const T0: i64 = 1_700_000_000;
 pub const A: usize = 0; // founder, delegate
 pub const B: usize = 1; // delegate
 pub const C: usize = 2; // delegate
-pub const N: usize = 3; // not a delegate
+pub const N: usize = 3; // not a delegate; author of the issue / patch / thread roots
+pub const S: usize = 4; // not a delegate, author of nothing ("stranger")
+pub const ACTORS: [&str; 5] = ["A", "B", "C", "N", "S"];
 
 /// A signer that produces a signature which does not verify over the change (it signs other
 /// bytes with the right key, so the commit is well-formed and attributed to `key`).
@@ -87,6 +89,19 @@ pub struct World {
     pub memo_hits: u64,
 }
 
+pub const SCRATCH_ENV: &str = "COBDAG_SCRATCH";
+
+/// In the sweep's parent process: create the scratch directory under which every worker builds
+/// its repositories, and export it. The caller removes it (drop) before `Ctx::finish`.
+pub fn scratch() -> Option<tempfile::TempDir> {
+    if std::env::var_os("MCX_CHILD").is_some() {
+        return None;
+    }
+    let dir = tempfile::Builder::new().prefix("cobdag-").tempdir().expect("tempdir");
+    std::env::set_var(SCRATCH_ENV, dir.path());
+    Some(dir)
+}
+
 fn set_time(ts: i64) {
     // Process-global; every caller is single-threaded (sweep::procs worker, replay, or the
     // single-threaded preparation phase).
@@ -99,8 +114,13 @@ pub fn actor(i: usize) -> Device<MockSigner> {
 
 impl World {
     pub fn new(seed: u64, n_namespaces: usize) -> World {
-        let tmp = tempfile::Builder::new().prefix("cobdag-").tempdir().expect("tempdir");
-        let actors: Vec<_> = (0..4).map(actor).collect();
+        // Worker processes end through `process::exit`, which runs no destructors: the sweep's
+        // parent process owns one scratch directory (see `scratch`) and removes it at the end.
+        let tmp = match std::env::var_os(SCRATCH_ENV) {
+            Some(base) => tempfile::Builder::new().prefix("world-").tempdir_in(base).expect("tempdir"),
+            None => tempfile::Builder::new().prefix("cobdag-").tempdir().expect("tempdir"),
+        };
+        let actors: Vec<_> = (0..5).map(actor).collect();
         set_time(0);
         let storage = Storage::open(
             tmp.path().join("storage"),
@@ -481,4 +501,601 @@ pub fn diff_fields(a: &Observed, b: &Observed) -> Vec<String> {
         out.push("debug-only".into());
     }
     out
+}
+
+// ------------------------------------------------------------------------------------------------
+// Plans: which change does what
+
+/// How one non-root change is constructed.
+#[derive(Clone, Copy, Debug, PartialEq, Eq, PartialOrd, Ord, serde::Serialize, serde::Deserialize)]
+pub enum Mode {
+    /// Actions that the object type accepts in a linear history (the "recorder" payload).
+    Valid,
+    /// Valid payload, commit signature that does not verify.
+    BadSig,
+    /// `pos` actions that are accepted, followed by one action that the type rejects for
+    /// `reason` (index into `reasons(kind)`).
+    Rejected { pos: u8, reason: u8 },
+}
+
+/// A rejection reason of an object type.
+#[derive(Clone, Copy, Debug)]
+pub struct Reason {
+    pub name: &'static str,
+    /// Largest number of accepted actions that can precede the rejected one without tripping
+    /// the implementation's `debug_assert!(!timeline.contains(..))` (a second successful
+    /// timeline-pushing action of one change panics in debug builds).
+    pub max_pos: u8,
+    /// The rejection does not depend on the rest of the history: wherever the change sits, the
+    /// object type must reject it.
+    pub certain: bool,
+}
+
+const fn r(name: &'static str, max_pos: u8, certain: bool) -> Reason {
+    Reason { name, max_pos, certain }
+}
+
+const ISSUE_REASONS: &[Reason] = &[
+            r("bad-title", 2, true),
+            r("reply-to-missing", 2, true),
+            r("comment-edit-missing", 2, true),
+            r("redact-root-comment", 2, true),
+            r("label-by-non-delegate", 2, true),
+            r("assign-by-non-delegate", 2, true),
+            r("empty-comment", 2, true),
+            r("edit-by-stranger", 1, true),
+];
+const PATCH_REASONS: &[Reason] = &[
+            r("redact-root-revision", 2, true),
+            r("revision-edit-missing", 2, true),
+            r("review-redact-missing", 2, true),
+            r("label-by-non-delegate", 2, true),
+            r("assign-by-non-delegate", 2, true),
+            r("merge-by-non-delegate", 2, true),
+            r("revision-comment-reply-missing", 2, true),
+            r("revision-comment-empty", 2, true),
+            r("edit-by-stranger", 1, true),
+];
+const THREAD_REASONS: &[Reason] = &[
+            r("reply-to-missing", 1, true),
+            r("edit-missing", 0, true),
+            r("redact-missing", 1, true),
+            r("react-missing", 1, true),
+            r("empty-comment", 1, true),
+            r("empty-edit", 1, true),
+];
+const IDENTITY_REASONS: &[Reason] = &[
+            r("accept-missing-revision", 1, true),
+            r("revision-bad-doc-signature", 1, true),
+            r("revision-without-parent", 1, true),
+            r("redact-missing-revision", 1, true),
+            r("accept-bad-signature", 1, false),
+            r("duplicate-verdict", 1, false),
+            r("action-by-non-delegate", 0, false),
+            r("doc-unchanged", 1, false),
+];
+
+pub fn reasons(kind: Kind) -> &'static [Reason] {
+    match kind {
+        Kind::Issue => ISSUE_REASONS,
+        Kind::Patch => PATCH_REASONS,
+        Kind::Thread => THREAD_REASONS,
+        Kind::Identity => IDENTITY_REASONS,
+    }
+}
+
+impl Mode {
+    pub fn label(&self, kind: Kind) -> String {
+        match self {
+            Mode::Valid => "valid".into(),
+            Mode::BadSig => "bad-commit-signature".into(),
+            Mode::Rejected { pos, reason } => format!("{}@action{}", reasons(kind)[*reason as usize].name, pos + 1),
+        }
+    }
+    pub fn is_valid(&self) -> bool {
+        matches!(self, Mode::Valid)
+    }
+    /// Every mode of the kind: valid, bad signature, every reason at every admissible position.
+    pub fn all(kind: Kind) -> Vec<Mode> {
+        let mut v = vec![Mode::Valid, Mode::BadSig];
+        for (ri, r) in reasons(kind).iter().enumerate() {
+            for pos in 0..=r.max_pos {
+                v.push(Mode::Rejected { pos, reason: ri as u8 });
+            }
+        }
+        v
+    }
+    pub fn certain_invalid(&self, kind: Kind) -> bool {
+        match self {
+            Mode::Valid => false,
+            Mode::BadSig => true,
+            Mode::Rejected { reason, .. } => reasons(kind)[*reason as usize].certain,
+        }
+    }
+}
+
+#[derive(Clone, Debug, PartialEq, Eq, serde::Serialize, serde::Deserialize)]
+pub struct Plan {
+    pub kind: Kind,
+    pub shape: Shape,
+    /// Timestamp offset of each non-root change.
+    pub ts: Vec<i64>,
+    pub modes: Vec<Mode>,
+    /// Target rank of the ids of the non-root changes (`None`: whatever salt 0 gives).
+    pub rank: Option<Vec<usize>>,
+}
+
+#[derive(Clone, Debug)]
+pub struct Built {
+    /// `ids[0]` = root.
+    pub ids: Vec<Oid>,
+    pub obj: ObjectId,
+    pub specs: Vec<ChangeSpec>,
+    pub salts: Vec<u32>,
+    /// Achieved rank of the non-root ids.
+    pub rank: Vec<usize>,
+    pub rank_ok: bool,
+}
+
+struct Rendered {
+    author: usize,
+    contents: Vec<Vec<u8>>,
+    embeds: Vec<(String, Oid)>,
+}
+
+/// Identity documents proposed by change `i` (distinct from the root document and from each
+/// other; A, B, C stay delegates in all of them so that authors remain delegates).
+fn proposed_doc(w: &World, i: usize) -> Doc {
+    let n = w.did(N);
+    let s = w.did(S);
+    w.root_doc
+        .clone()
+        .with_edits(|raw| match i % 6 {
+            1 => raw.threshold = 2,
+            2 => raw.visibility = Visibility::Private { allow: BTreeSet::from([n]) },
+            3 => raw.delegates.push(n),
+            4 => raw.threshold = 3,
+            5 => raw.visibility = Visibility::Private { allow: BTreeSet::from([s]) },
+            _ => {
+                raw.delegates.push(s);
+                raw.threshold = 2;
+            }
+        })
+        .expect("proposed doc verifies")
+}
+
+fn near_parent(shape: &Shape, j: usize) -> Option<usize> {
+    shape.parents_of(j).into_iter().filter(|p| *p != 0).max()
+}
+
+/// Is the last action of the valid payload of issue change `j` a new comment?
+fn issue_commented(shape: &Shape, j: usize) -> bool {
+    match near_parent(shape, j) {
+        Some(p) if j % 3 != 2 && issue_commented(shape, p) => false,
+        _ => true,
+    }
+}
+
+/// Is the valid payload of thread change `j` a new comment?
+fn thread_commented(shape: &Shape, j: usize) -> bool {
+    match (j % 3, near_parent(shape, j)) {
+        (2, _) => false,
+        (_, Some(p)) if thread_commented(shape, p) => false,
+        _ => true,
+    }
+}
+
+fn label(s: String) -> radicle::cob::Label {
+    radicle::cob::Label::new(s).expect("label")
+}
+
+fn reaction() -> radicle::cob::Reaction {
+    radicle::cob::Reaction::new('\u{1F600}').expect("reaction")
+}
+
+/// What change `i` of a plan looks like, given the ids of the changes before it.
+///
+/// "Recorder" payloads: every valid change writes order-sensitive registers (title, state,
+/// labels) and appends to / edits / redacts in a timeline, so the final object is a record of the
+/// order in which the implementation applied the changes.
+fn render(w: &World, plan: &Plan, i: usize, ids: &[Oid]) -> Rendered {
+    let kind = plan.kind;
+    let mode = plan.modes[i - 1];
+    let root = ids[0];
+    let parents = plan.shape.parents_of(i);
+    // Nearest non-root parent (largest index).
+    let near = parents.iter().copied().filter(|p| *p != 0).max();
+    let (pos, reason) = match mode {
+        Mode::Rejected { pos, reason } => (pos as usize, Some(reasons(kind)[reason as usize].name)),
+        _ => (usize::MAX, None),
+    };
+    match kind {
+        Kind::Issue => {
+            use issue::Action as Ac;
+            let mut author = [A, B, N][i % 3];
+            // Accepted actions of this change, in order. Only the last one touches the thread
+            // timeline.
+            let mut ok: Vec<Ac> = vec![
+                Ac::Edit { title: format!("title {i}") },
+                Ac::Lifecycle {
+                    state: if i % 2 == 1 { issue::State::Closed { reason: issue::CloseReason::Solved } } else { issue::State::Open },
+                },
+            ];
+            if author != N {
+                ok.push(Ac::Label { labels: BTreeSet::from([label(format!("l{i}"))]) });
+            }
+            let third = match near {
+                // Delegates (i % 3 in {0, 1}) redact / edit the comment made by the nearest parent,
+                // when that parent's valid payload is a comment (its change id is the comment id).
+                Some(p) if i % 3 == 0 && issue_commented(&plan.shape, p) => Ac::CommentRedact { id: ids[p] },
+                Some(p) if i % 3 == 1 && issue_commented(&plan.shape, p) => Ac::CommentEdit { id: ids[p], body: format!("edited by {i}"), embeds: vec![] },
+                _ => Ac::Comment { body: format!("comment {i}"), reply_to: Some(root), embeds: vec![] },
+            };
+            let acts: Vec<Ac> = match reason {
+                None => {
+                    ok.push(third);
+                    ok
+                }
+                Some(name) => {
+                    let bad = match name {
+                        "bad-title" => Ac::Edit { title: format!("bad {i}\n") },
+                        "reply-to-missing" => Ac::Comment { body: format!("comment {i}"), reply_to: Some(missing_id()), embeds: vec![] },
+                        "comment-edit-missing" => Ac::CommentEdit { id: missing_id(), body: "x".into(), embeds: vec![] },
+                        "redact-root-comment" => Ac::CommentRedact { id: root },
+                        "label-by-non-delegate" => {
+                            author = N;
+                            Ac::Label { labels: BTreeSet::from([label(format!("denied{i}"))]) }
+                        }
+                        "assign-by-non-delegate" => {
+                            author = N;
+                            Ac::Assign { assignees: BTreeSet::from([w.did(A)]) }
+                        }
+                        "empty-comment" => Ac::Comment { body: String::new(), reply_to: Some(root), embeds: vec![] },
+                        "edit-by-stranger" => {
+                            author = S;
+                            Ac::Edit { title: format!("stranger {i}") }
+                        }
+                        other => unreachable!("issue reason {other}"),
+                    };
+                    let mut prefix: Vec<Ac> = if author == S {
+                        // A stranger may only comment.
+                        vec![Ac::Comment { body: format!("comment {i}"), reply_to: Some(root), embeds: vec![] }]
+                    } else {
+                        // Title and state may be written by delegates and by the issue author N.
+                        ok.into_iter().take(2).collect()
+                    };
+                    prefix.truncate(pos);
+                    prefix.push(bad);
+                    prefix
+                }
+            };
+            Rendered { author, contents: acts.iter().map(enc).collect(), embeds: vec![] }
+        }
+        Kind::Patch => {
+            use patch::Action as Ac;
+            let mut author = [A, B, N][i % 3];
+            let rev = patch::RevisionId::from(root);
+            let mut ok: Vec<Ac> = vec![
+                Ac::Edit { title: format!("title {i}"), target: patch::MergeTarget::Delegates },
+                Ac::Lifecycle { state: [patch::Lifecycle::Draft, patch::Lifecycle::Open, patch::Lifecycle::Archived][i % 3].clone() },
+            ];
+            if author != N {
+                ok.push(Ac::Label { labels: BTreeSet::from([label(format!("l{i}"))]) });
+            }
+            let third = match i % 4 {
+                1 => Ac::RevisionComment { revision: rev, location: None, body: format!("comment {i}"), reply_to: None, embeds: vec![] },
+                2 => Ac::Review {
+                    revision: rev,
+                    summary: Some(format!("review {i}")),
+                    verdict: Some(if i % 8 == 2 { patch::Verdict::Accept } else { patch::Verdict::Reject }),
+                    labels: vec![],
+                },
+                3 => Ac::Revision { description: format!("revision {i}"), base: w.identity, oid: root, resolves: BTreeSet::new() },
+                _ => match near {
+                    // The nearest parent proposed a revision (p % 4 == 3): a delegate redacts it.
+                    Some(p) if author != N && p % 4 == 3 => Ac::RevisionRedact { revision: patch::RevisionId::from(ids[p]) },
+                    _ => Ac::RevisionReact { revision: rev, location: None, reaction: reaction(), active: true },
+                },
+            };
+            let acts: Vec<Ac> = match reason {
+                None => {
+                    ok.push(third);
+                    ok
+                }
+                Some(name) => {
+                    let bad = match name {
+                        "redact-root-revision" => Ac::RevisionRedact { revision: rev },
+                        "revision-edit-missing" => Ac::RevisionEdit { revision: patch::RevisionId::from(missing_id()), description: "x".into(), embeds: vec![] },
+                        "review-redact-missing" => Ac::ReviewRedact { review: patch::ReviewId::from(missing_id()) },
+                        "label-by-non-delegate" => {
+                            author = N;
+                            Ac::Label { labels: BTreeSet::from([label(format!("denied{i}"))]) }
+                        }
+                        "assign-by-non-delegate" => {
+                            author = N;
+                            Ac::Assign { assignees: BTreeSet::from([w.did(A)]) }
+                        }
+                        "merge-by-non-delegate" => {
+                            author = N;
+                            Ac::Merge { revision: rev, commit: w.identity }
+                        }
+                        "revision-comment-reply-missing" => {
+                            Ac::RevisionComment { revision: rev, location: None, body: format!("comment {i}"), reply_to: Some(missing_id()), embeds: vec![] }
+                        }
+                        "revision-comment-empty" => Ac::RevisionComment { revision: rev, location: None, body: String::new(), reply_to: None, embeds: vec![] },
+                        "edit-by-stranger" => {
+                            author = S;
+                            Ac::Edit { title: format!("stranger {i}"), target: patch::MergeTarget::Delegates }
+                        }
+                        other => unreachable!("patch reason {other}"),
+                    };
+                    let mut prefix: Vec<Ac> = if author == S {
+                        vec![Ac::RevisionComment { revision: rev, location: None, body: format!("comment {i}"), reply_to: None, embeds: vec![] }]
+                    } else {
+                        ok.into_iter().take(2).collect()
+                    };
+                    prefix.truncate(pos);
+                    prefix.push(bad);
+                    prefix
+                }
+            };
+            Rendered { author, contents: acts.iter().map(enc).collect(), embeds: vec![] }
+        }
+        Kind::Thread => {
+            use thread::Action as Ac;
+            let author = [A, B, N][i % 3];
+            // Exactly one timeline-pushing action per valid change.
+            let good = match (i % 3, near) {
+                (2, _) => Ac::Edit { id: root, body: format!("edit {i}") },
+                (0, Some(p)) if thread_commented(&plan.shape, p) => Ac::Redact { id: ids[p] },
+                (1, Some(p)) if thread_commented(&plan.shape, p) => Ac::React { to: ids[p], reaction: reaction(), active: true },
+                _ => Ac::Comment { body: format!("comment {i}"), reply_to: Some(root) },
+            };
+            let acts: Vec<Ac> = match reason {
+                None => vec![good],
+                Some(name) => {
+                    let bad = match name {
+                        "reply-to-missing" => Ac::Comment { body: format!("comment {i}"), reply_to: Some(missing_id()) },
+                        "edit-missing" => Ac::Edit { id: missing_id(), body: "x".into() },
+                        "redact-missing" => Ac::Redact { id: missing_id() },
+                        "react-missing" => Ac::React { to: missing_id(), reaction: reaction(), active: true },
+                        "empty-comment" => Ac::Comment { body: String::new(), reply_to: Some(root) },
+                        "empty-edit" => Ac::Edit { id: root, body: String::new() },
+                        other => unreachable!("thread reason {other}"),
+                    };
+                    let mut prefix = vec![Ac::Comment { body: format!("comment {i}"), reply_to: Some(root) }];
+                    prefix.truncate(pos);
+                    prefix.push(bad);
+                    prefix
+                }
+            };
+            Rendered { author, contents: acts.iter().map(enc).collect(), embeds: vec![] }
+        }
+        Kind::Identity => {
+            use identity::Action as Ac;
+            let mut author = [A, B, C][i % 3];
+            // Nearest ancestor change (largest index) whose valid payload proposed a revision.
+            let proposes = |j: usize| -> bool {
+                // A change proposes when none of its ancestors proposed; decided recursively on
+                // the shape only.
+                fn rec(shape: &Shape, j: usize) -> bool {
+                    !shape.ancestors(j).iter().any(|a| *a != 0 && rec(shape, *a))
+                }
+                rec(&plan.shape, j)
+            };
+            let target = plan.shape.ancestors(i).into_iter().filter(|a| *a != 0 && proposes(*a)).max();
+            let mut embeds = vec![];
+            let propose = |author: usize, good_sig: bool, with_parent: bool, unchanged: bool, embeds: &mut Vec<(String, Oid)>| -> Ac {
+                let doc = if unchanged { w.root_doc.clone() } else { proposed_doc(w, i) };
+                let (blob, bytes, sig) = doc.sign(&w.actors[if good_sig { author } else { S }]).expect("sign doc");
+                let written = w.blob(&bytes);
+                assert_eq!(written, blob);
+                embeds.push(("radicle.json".to_string(), blob));
+                Ac::Revision {
+                    title: format!("revision {i}"),
+                    description: String::new(),
+                    blob,
+                    parent: if with_parent { Some(root) } else { None },
+                    signature: sig,
+                }
+            };
+            // The accepted action of this change.
+            let good = match target {
+                None => propose(author, true, true, false, &mut embeds),
+                Some(q) => {
+                    // Someone other than the proposer of q votes (or edits / redacts).
+                    let proposer = [A, B, C][q % 3];
+                    if author == proposer {
+                        author = [A, B, C][(q + 1) % 3];
+                    }
+                    let doc = proposed_doc(w, q);
+                    match i % 4 {
+                        3 => Ac::RevisionReject { revision: ids[q] },
+                        _ => Ac::RevisionAccept { revision: ids[q], signature: doc.signature_of(&w.actors[author]).expect("sign") },
+                    }
+                }
+            };
+            let acts: Vec<Ac> = match reason {
+                None => vec![good],
+                Some(name) => {
+                    let bad = match name {
+                        "accept-missing-revision" => {
+                            Ac::RevisionAccept { revision: missing_id(), signature: w.root_doc.signature_of(&w.actors[author]).expect("sign") }
+                        }
+                        "revision-bad-doc-signature" => propose(author, false, true, false, &mut embeds),
+                        "revision-without-parent" => propose(author, true, false, false, &mut embeds),
+                        "redact-missing-revision" => Ac::RevisionRedact { revision: missing_id() },
+                        "accept-bad-signature" => {
+                            let q = target.map(|q| ids[q]).unwrap_or(root);
+                            // Signature by the right key over the wrong bytes.
+                            Ac::RevisionAccept { revision: q, signature: w.root_doc.signature_of(&w.actors[author]).expect("sign") }
+                        }
+                        "duplicate-verdict" => match target {
+                            Some(q) => {
+                                // The proposer already has an accepting verdict on q.
+                                author = [A, B, C][q % 3];
+                                Ac::RevisionReject { revision: ids[q] }
+                            }
+                            None => Ac::RevisionReject { revision: root },
+                        },
+                        "action-by-non-delegate" => {
+                            author = N;
+                            Ac::RevisionReject { revision: target.map(|q| ids[q]).unwrap_or(root) }
+                        }
+                        "doc-unchanged" => propose(author, true, true, true, &mut embeds),
+                        other => unreachable!("identity reason {other}"),
+                    };
+                    let mut prefix = vec![good];
+                    prefix.truncate(pos);
+                    prefix.push(bad);
+                    prefix
+                }
+            };
+            Rendered { author, contents: acts.iter().map(enc).collect(), embeds }
+        }
+    }
+}
+
+/// The root change of an object of `kind` (the identity root is the repository's own).
+fn root_spec(w: &World, kind: Kind, tag: u32) -> Option<ChangeSpec> {
+    let contents = match kind {
+        Kind::Issue => vec![
+            enc(&issue::Action::Comment { body: "root comment".into(), reply_to: None, embeds: vec![] }),
+            enc(&issue::Action::Edit { title: "title 0".into() }),
+        ],
+        Kind::Patch => vec![
+            enc(&patch::Action::Revision { description: "revision 0".into(), base: w.identity, oid: w.identity, resolves: BTreeSet::new() }),
+            enc(&patch::Action::Edit { title: "title 0".into(), target: patch::MergeTarget::Delegates }),
+        ],
+        Kind::Thread => vec![enc(&thread::Action::Comment { body: "root comment".into(), reply_to: None })],
+        Kind::Identity => return None,
+    };
+    Some(ChangeSpec {
+        ty: kind.type_name(),
+        resource: Some(w.identity),
+        parents: vec![],
+        ts: 0,
+        author: N,
+        bad_sig: false,
+        contents,
+        embeds: vec![],
+        salt: tag,
+    })
+}
+
+/// Write the plan's changes (parents before children), searching salts so that the ids of the
+/// non-root changes have the plan's rank order.
+pub fn build(w: &mut World, plan: &Plan) -> Built {
+    let kind = plan.kind;
+    let n = plan.shape.n();
+    let mut specs = vec![];
+    let root = match root_spec(w, kind, 0) {
+        Some(spec) => {
+            let id = w.write(&spec);
+            specs.push(spec);
+            id
+        }
+        None => {
+            specs.push(ChangeSpec {
+                ty: kind.type_name(),
+                resource: None,
+                parents: vec![],
+                ts: 0,
+                author: A,
+                bad_sig: false,
+                contents: vec![],
+                embeds: vec![],
+                salt: 0,
+            });
+            w.identity
+        }
+    };
+    let mut ids = vec![root];
+    let mut salts = vec![0u32];
+    let mut rank_ok = true;
+    for i in 1..=n {
+        let r = render(w, plan, i, &ids);
+        let mut spec = ChangeSpec {
+            ty: kind.type_name(),
+            resource: if kind == Kind::Identity { None } else { Some(w.identity) },
+            parents: plan.shape.parents_of(i).iter().map(|p| ids[*p]).collect(),
+            ts: plan.ts[i - 1],
+            author: r.author,
+            bad_sig: plan.modes[i - 1] == Mode::BadSig,
+            contents: r.contents,
+            embeds: r.embeds,
+            salt: 0,
+        };
+        let mut chosen = None;
+        for salt in 0..SALT_CAP {
+            spec.salt = salt;
+            let id = w.write(&spec);
+            let ok = match &plan.rank {
+                None => true,
+                Some(target) => {
+                    let mut cur: Vec<Oid> = ids[1..].to_vec();
+                    cur.push(id);
+                    order_consistent(&cur, target)
+                }
+            };
+            if ok && !ids.contains(&id) {
+                chosen = Some((id, salt));
+                break;
+            }
+        }
+        let (id, salt) = chosen.unwrap_or_else(|| {
+            rank_ok = false;
+            spec.salt = 0;
+            (w.write(&spec), 0)
+        });
+        spec.salt = salt;
+        ids.push(id);
+        salts.push(salt);
+        specs.push(spec);
+    }
+    let rank = ranks(&ids[1..]);
+    Built { obj: ObjectId::from(root), ids, specs, salts, rank, rank_ok }
+}
+
+impl Built {
+    /// One namespace per tip of the ancestor-closed node set `keep`, in index order.
+    pub fn tip_refs(&self, shape: &Shape, keep: &BTreeSet<usize>) -> Vec<(usize, Oid)> {
+        shape.tips_within(keep).iter().enumerate().map(|(ns, t)| (ns, self.ids[*t])).collect()
+    }
+    pub fn index_of(&self, id: &Oid) -> Option<usize> {
+        self.ids.iter().position(|x| x == id)
+    }
+}
+
+pub fn plan_json(plan: &Plan, built: Option<&Built>) -> Value {
+    let mut v = json!({
+        "kind": plan.kind,
+        "shape": plan.shape,
+        "parents": (1..=plan.shape.n()).map(|i| plan.shape.parents_of(i)).collect::<Vec<_>>(),
+        "ts": plan.ts,
+        "modes": plan.modes,
+        "mode_labels": plan.modes.iter().map(|m| m.label(plan.kind)).collect::<Vec<_>>(),
+        "rank": plan.rank,
+    });
+    if let Some(b) = built {
+        v["ids"] = oid_json(&b.ids);
+        v["salts"] = json!(b.salts);
+        v["authors"] = json!(b.specs.iter().map(|s| ACTORS[s.author]).collect::<Vec<_>>());
+        v["actions"] = json!(b
+            .specs
+            .iter()
+            .map(|s| s.contents.iter().map(|c| String::from_utf8_lossy(c).to_string()).collect::<Vec<_>>())
+            .collect::<Vec<_>>());
+    }
+    v
+}
+
+pub fn plan_from_json(v: &Value) -> Option<Plan> {
+    Some(Plan {
+        kind: serde_json::from_value(v.get("kind")?.clone()).ok()?,
+        shape: serde_json::from_value(v.get("shape")?.clone()).ok()?,
+        ts: serde_json::from_value(v.get("ts")?.clone()).ok()?,
+        modes: serde_json::from_value(v.get("modes")?.clone()).ok()?,
+        rank: serde_json::from_value(v.get("rank")?.clone()).ok()?,
+    })
 }
